@@ -169,20 +169,20 @@ theorem mem_pvmOf_unEvs {X : SetOracle} (hX : IterPerm X) {σ : Sched} (hσ : Sc
 theorem rawEquals_num (X : SetOracle) (x y : Num) :
     Value.rawEquals X ⟨.number, .n x⟩ ⟨.number, .n y⟩ = .ok (Num.rawEqual x y) := by
   cases h : Num.rawEqual x y <;>
-    simp [Value.rawEquals, Value.rawEqualsP, Payload.depth, Value.rawEqualsFuel, Ty.equals,
+    simp [Value.rawEquals, Value.rawEqualsP, Value.rawEqualsFuel, Ty.equals,
       Payload.isMarked, Payload.marks1, Payload.unmark1, Value.equalsP, Value.equalsFuel,
       Value.equalsPre, Value.isNull, Payload.isNull, Value.isKnown, Payload.isKnown,
       Value.definitelyNotNull, Value.hasWhollyKnownType, Res.map, Value.boolVal, Value.isTrue, h,
-      bind, Res.bind, pure]
+      pure]
 
 theorem rawEquals_str (X : SetOracle) (a b : String) :
     Value.rawEquals X (strVal a) (strVal b) = .ok (a == b) := by
   by_cases h : a = b <;>
-    simp [Value.rawEquals, Value.rawEqualsP, Payload.depth, Value.rawEqualsFuel, Ty.equals,
+    simp [Value.rawEquals, Value.rawEqualsP, Value.rawEqualsFuel, Ty.equals,
       Payload.isMarked, Payload.marks1, Payload.unmark1, Value.equalsP, Value.equalsFuel,
       Value.equalsPre, Value.isNull, Payload.isNull, Value.isKnown, Payload.isKnown,
       Value.definitelyNotNull, Value.hasWhollyKnownType, Res.map, Value.boolVal, Value.isTrue, h,
-      bind, Res.bind, pure, strVal]
+      pure, strVal]
 
 theorem toInt_ofInt (i : Nat) (hi : (i : Int) ≤ maxInt) :
     (Num.ofInt (i : Int) 64).toInt? = some (i : Int) := by
@@ -516,7 +516,7 @@ theorem adequate_unmark {X : SetOracle} (hX : IterPerm X) {σ : Sched} (hσ : Sc
     have h3 := equals_pathAt hX r' r' v q' q' hs g2 g2 hns
     rw [← g3, heq] at h3
     rw [← g3, heq, h3] at h2
-    simp only [Res.ok.injEq, decide_eq_true_eq, decide_true] at h2
+    simp only [Res.ok.injEq, decide_true] at h2
     have hrr : r = r' := by
       by_cases h : r = r'
       · exact h
@@ -537,7 +537,7 @@ theorem adequate_unmark {X : SetOracle} (hX : IterPerm X) {σ : Sched} (hσ : Sc
 /-! ### the remark transform -/
 
 /-- a member is determined by its step -/
-theorem kid_of_step {X : SetOracle} (hX : IterPerm X) (v : Value) (hs : shapedV v = true)
+theorem kid_of_step {X : SetOracle} (_hX : IterPerm X) (v : Value) (hs : shapedV v = true)
     (c c0 : PathStep × Value) (hc : c ∈ kids X v) (hc0 : c0 ∈ kids X v) (h : c.1 = c0.1) : c = c0 := by
   by_cases hset : notSet v.ty = true
   · obtain ⟨i, hi⟩ := List.getElem?_of_mem hc
